@@ -257,6 +257,7 @@ type side struct {
 	wrPk, wrBy, rdPk, rdBy int
 	cbMu                   sync.Mutex
 	cbCon                  []string
+	failedSawSel           bool // a Failed notification ran while GetSelectedCandidatePair still returned a pair
 	cbSel                  [][2]string
 	cbCnd                  []string
 }
@@ -471,8 +472,16 @@ func runSession(t *testing.T, cfg *sessCfg, job *sessJob, rng *mrand.Rand, sched
 			sd.cbMu.Unlock()
 		})
 		_ = ag.OnConnectionStateChange(func(cs ice.ConnectionState) {
+			// what the application sees when it is told Failed: the lock-free accessor must already report "no selected pair"
+			sawSel := false
+			if cs == ice.ConnectionStateFailed {
+				if p, _ := ag.GetSelectedCandidatePair(); p != nil {
+					sawSel = true
+				}
+			}
 			sd.cbMu.Lock()
 			sd.cbCon = append(sd.cbCon, cs.String())
+			sd.failedSawSel = sd.failedSawSel || sawSel
 			sd.cbMu.Unlock()
 		})
 		_ = ag.OnSelectedCandidatePairChange(func(l, r ice.Candidate) {
@@ -707,6 +716,7 @@ func runSession(t *testing.T, cfg *sessCfg, job *sessJob, rng *mrand.Rand, sched
 			S[n].cbMu.Lock()
 			rds := S[n].reads
 			S[n].reads = nil
+			fss := S[n].failedSawSel
 			S[n].cbMu.Unlock()
 			if rds == nil {
 				rds = []dread{}
@@ -728,7 +738,7 @@ func runSession(t *testing.T, cfg *sessCfg, job *sessJob, rng *mrand.Rand, sched
 			res[n] = map[string]any{
 				"role": s.Role, "conn": s.Conn, "locals": locs, "remotes": rems, "pairs": prs, "pend": pend, "sel": s.Sel, "selListed": s.SelListed, "tcpActive": tcpActive,
 				"nomPair": s.NomPair, "gen": S[n].gen, "rgen": S[n].rgen, "rx": rxs, "lastNom": s.LastNom, "gath": s.Gath,
-				"cbConn": con, "cbSel": sel, "cbCand": cnd,
+				"cbConn": con, "cbSel": sel, "cbCand": cnd, "failedSawSel": fss,
 				"rd": rds, "bsent": bs, "brecv": br, "selCnt": selCnt, "tally": []int{S[n].wrPk, S[n].wrBy, S[n].rdPk, S[n].rdBy},
 			}
 		}
